@@ -594,8 +594,8 @@ pub fn property() -> Property {
         assumptions: &["EdgeIndexLabel is only required to print a number (its meaning is not documented)"],
         both_profiles: false,
         subs: vec![
-            sub("graph6/encode+decode", 30_000, 600_000, g_strategy, g_run),
-            sub("dot/wellformed+faithful", 80_000, 2_000_000, d_strategy, d_run),
+            sub("graph6/encode+decode", 200_000, 3_000_000, g_strategy, g_run),
+            sub("dot/wellformed+faithful", 800_000, 16_000_000, d_strategy, d_run),
         ],
     }
 }
